@@ -175,7 +175,8 @@ def a4(ctx, prog):
         res = prove(ev, cells, post, budget=20000)
         run_ob(ctx, R, f.where(), "∀ n = B·2^%d + v (B >= 1, so n > MI_MEDIUM_OBJ_SIZE_MAX), page size %d: mi_good_size(n) is the multiple of the page size at or above n+pad" % (K, P), "C16.A4:forall:%d" % P, res)
     g = prog.fn("mi_good_size")
-    ok = any(rl.is_call(g, g.strip(g.nodes[r]["val"]), "_mi_align_up") for r in g.all(kind="ReturnStmt")) and any(g.mentions_call(r, "mi_bin") and g.mentions_call(r, "_mi_bin_size") for r in g.all(kind="ReturnStmt"))
+    vals = [v for r in g.all(kind="ReturnStmt") if "val" in g.nodes[r] for v in rl.values_of(g, g.nodes[r]["val"])]   # through a result variable too
+    ok = any(rl.is_call(g, v, "_mi_align_up") for v in vals) and any(g.mentions_call(v, "mi_bin") and g.mentions_call(v, "_mi_bin_size") for v in vals)
     ctx.check(R, ok, g.where(), "mi_good_size = _mi_bin_size(mi_bin(size+pad)) or _mi_align_up(size+pad, page) — the same bin function and table as the allocator", key="C16.A4:shape")
     for user in ("mi_page_queue", "mi_find_free_page", "mi_heap_page_queue_of"):
         if prog.has(user):
@@ -218,8 +219,15 @@ def a5(ctx, prog):
     sdefs = []
     if okf:
         sd = rl.var_of(f, fl[0]["first"])
-        sdefs = [rl.canon(f, rhs, pm).replace(" ", "") for a, rhs, op in f.var_defs(sd) if rhs is not None]
-    ctx.check(R, sorted(sdefs) == sorted(["0", "(1+_mi_wsize_from_size(#prev->block_size))", "#idx"]), f.where(), "start ∈ {0, 1 + wsize(prev->block_size), idx}: %s" % sdefs, key="C16.A5:start")
+        for a, rhs, op in f.var_defs(sd):
+            if rhs is None:
+                continue
+            j = f.strip(rhs)
+            if f.nodes[j]["k"] == "ConditionalOperator":     # the clamp written as a minimum: both arms are possible values
+                sdefs += [rl.canon(f, f.nodes[j]["then"], pm).replace(" ", ""), rl.canon(f, f.nodes[j]["else"], pm).replace(" ", "")]
+            else:
+                sdefs.append(rl.canon(f, rhs, pm).replace(" ", ""))
+    ctx.check(R, sorted(set(sdefs)) == sorted(["0", "(1+_mi_wsize_from_size(#prev->block_size))", "#idx"]), f.where(), "start ∈ {0, 1 + wsize(prev->block_size), idx}: %s" % sdefs, key="C16.A5:start")
     ctx.check(R, bool(okf), f.where(), "the fill loop covers start..idx inclusive", key="C16.A5:fill")
     U = used_bins(prog, it, T, small)
     wbin = {}
@@ -357,14 +365,20 @@ def a8(ctx, prog):
     res = prove(ev, [((1, S),)], lambda cell, r: (True if (isinstance(r, Based) and r.dbase == 0 and r.off.lo == r.off.hi == 0) else False if isinstance(r, Based) and (r.off.hi < 0 or r.off.lo > 0) else None), budget=200)
     run_ob(ctx, R, f.where(), "p = B·2^%d + v, v ∈ [1, 2^%d] ↦ B·2^%d (so a block that starts exactly at the next segment boundary still resolves to its own segment)" % (k, k, k), "C16.A8:segment", res)
     g = prog.fn("_mi_segment_page_of")
-    idxs = [dd for _, dd in rl.local_decl(g, lambda dd: "init" in dd and any(g.nodes[x]["k"] == "BinaryOperator" and g.nodes[x]["op"] == ">>" for x in g.walk(dd["init"])))]
+    # by role: the index is whatever subscripts segment->slices (as slices[i] or slices + i), the difference is the local
+    # computed as a pointer difference of the two parameters
+    idx_nodes = [g.nodes[x]["c"][1] for x in g.all(kind="ArraySubscriptExpr") if rl.field_is(g, g.nodes[x]["c"][0], "slices") and g.nodes[x].get("macro") not in ("mi_assert_internal", "mi_assert")]
+    idx_nodes += [o for x in g.all(kind="BinaryOperator") if g.nodes[x]["op"] == "+" and g.nodes[x].get("macro") not in ("mi_assert_internal", "mi_assert")
+                  for s_, o in ((g.nodes[x]["c"][0], g.nodes[x]["c"][1]), (g.nodes[x]["c"][1], g.nodes[x]["c"][0])) if rl.field_is(g, s_, "slices") and g.cv(o) is None]
     diffs = [dd for _, dd in rl.local_decl(g, lambda dd: "init" in dd and g.nodes[g.strip(dd["init"])]["k"] == "BinaryOperator" and g.nodes[g.strip(dd["init"])]["op"] == "-")]
-    if not idxs or not diffs:
-        raise AnalysisBroken("C16.A8: diff/idx locals of _mi_segment_page_of not found")
+    if not idx_nodes or not diffs:
+        raise AnalysisBroken("C16.A8: diff local / slices index of _mi_segment_page_of not found")
     nsl = prog.const("MI_SLICES_PER_SEGMENT")
+    it8 = Interp(prog)
+    it8.lazy_locals = True
     def ev2(cell):
         env = {diffs[0]["d"]: AV(cell[0][0], cell[0][1], 64, True)}
-        return it.eval(g, idxs[0]["init"], env, 0)
+        return it8.eval(g, idx_nodes[0], env, 0)
     res = prove(ev2, [((1, S),)], lambda cell, r: True if (0 <= r.lo and r.hi <= nsl) else (False if r.lo > nsl else None), budget=200)
     run_ob(ctx, R, g.where(), "diff ∈ [1, S] ↦ idx ∈ [0, %d]" % nsl, "C16.A8:index", res)
     rec = prog.records.get("mi_segment_s")
@@ -384,9 +398,18 @@ def a9(ctx, prog):
     if not diffs or not adj:
         raise AnalysisBroken("C16.A9: diff/adjust locals not found")
     dd_, ad = diffs[0]["d"], adj[0]["d"]
-    defs = [(a, rhs) for a, rhs, op in f.var_defs(ad) if rhs is not None]
+    defs = []
+    for a, rhs, op in f.var_defs(ad):
+        if rhs is None:
+            continue
+        j = f.strip(rhs)
+        if f.nodes[j]["k"] == "ConditionalOperator":     # adjust = (shift != 0 ? mask form : modulo form)
+            defs.append((a, f.nodes[j]["then"], (f.nodes[j]["cond"], True)))
+            defs.append((a, f.nodes[j]["else"], (f.nodes[j]["cond"], False)))
+        else:
+            defs.append((a, rhs, None))
     ctx.check(R, len(defs) == 2, f.where(), "two definitions of adjust (shift path, generic path)", key="C16.A9:shape")
-    for a, rhs in defs:
+    for a, rhs, sel in defs:
         j = f.strip(rhs)
         n = f.nodes[j]
         # no narrowing anywhere in the expression: every integer-typed sub-expression is 64 bits wide
@@ -400,7 +423,11 @@ def a9(ctx, prog):
             txt = rl.canon(f, j).replace(" ", "")
             ok = rl.var_of(f, n["c"][0]) == dd_ and "<<$0->block_size_shift)-1)" in txt
             ctx.check(R, ok, f.where(a), "shift path: adjust = diff & ((1 << shift) - 1) (%s)" % txt, key="C16.A9:mask")
-            w = f.cfg.guarded(f.cfg.pt(a), lambda e, pol: isinstance(e, int) and rl.fact_nonnull(f, e, pol, lambda x: rl.field_is(f, x, "block_size_shift")))
+            nz = lambda e, pol: isinstance(e, int) and rl.fact_nonnull(f, e, pol, lambda x: rl.field_is(f, x, "block_size_shift"))
+            if sel is not None:
+                w = None if any(nz(e_, p_) for e_, p_ in rl.facts_of(f, sel[0], sel[1])) else ["the `?:` does not select the mask form on shift != 0"]
+            else:
+                w = f.cfg.guarded(f.cfg.pt(a), nz)
             ctx.check(R, w is None, f.where(a), "the mask is used only when block_size_shift != 0", key="C16.A9:mask:guard", witness=w)
         else:
             ctx.fail(R, f.where(a), "unrecognised adjust definition %s" % f.text(j), key="C16.A9:other")
